@@ -146,6 +146,10 @@ class PythonCryptoEndpoint(CryptoEndpoint, EndpointListener):
         """
         Process incoming raw data, assumed to be a cell, originating from a given address.
         """
+        if len(data) < 29:
+            self.logger.warning("Dropping cell (too short to contain a cell header)")
+            return
+
         cell = CellPayload.from_bin(data)
         circuit_id = cell.circuit_id
 
